@@ -929,7 +929,7 @@ func (r *rig) validate(gen int, real sts.Validate, files []sts.Pollable) ([]sts.
 		names = append(names, f.GetName())
 	}
 	sort.Strings(names)
-	alt := r.common(gen, "validate", strings.Join(names, ","), append([]string{"refuse", "lost", "recv-restart"}, genericMenu...))
+	alt := r.common(gen, "validate", strings.Join(names, ","), append([]string{"refuse", "lost", "recv-restart", "down:35", "down:60"}, genericMenu...))
 	w := &wireReq{Kind: "validate", Gen: gen, Fault: alt, At: r.now(), Answers: map[string]int{}}
 	for _, f := range files {
 		w.Parts = append(w.Parts, wirePart{Name: f.GetName(), Hash: f.GetHash()})
